@@ -612,25 +612,37 @@ def opSearch (j : Json) : R Json := do
   let eps ← ratOf (← fld j "eps")
   let md ← fldNat j "maxDepth"
   let seed ← fldNat j "seed"
-  let tr : ATrace ← (← fldArr j "trace").mapM fun st => do
+  -- edge = [tgt, conf, kind, concept, considered, assigned|null]
+  let kindOf (x : String) : R EKind := match x with
+    | "toHub" => pure .toHub | "sameObject" => pure .sameObject | "intra" => pure .intra | "inter" => pure .inter
+    | k => throw s!"edge kind {k}"
+  let tr : FTrace ← (← fldArr j "trace").mapM fun st => do
     match ← arr st with
     | [n, es] =>
       let es ← (← arr es).mapM fun e => do
         match ← arr e with
-        | [t, c, r] =>
+        | [t, c, k, cn, cons, r] =>
           let r : Option Rat ← (match r with | Json.null => pure none | x => do pure (some (← ratOf x)))
-          pure (({ tgt := ← t.getNat?, conf := ← ratOf c } : SEdge), r)
-        | _ => throw "edge = [tgt, conf, assigned|null]"
+          pure ({ edge := { tgt := ← t.getNat?, conf := ← ratOf c, kind := ← kindOf (← str k), concept := ← str cn },
+                  considered := ← cons.getBool?, assigned := r } : FEdge)
+        | _ => throw "edge = [tgt, conf, kind, concept, considered, assigned|null]"
       pure ((← n.getNat?), es)
     | _ => throw "step = [node, edges]"
-  match runC g min eps md seed tr with
-  | some s =>
+  let seedConcept ← fldStr j "seedConcept"
+  match runC2 g min eps md seed seedConcept tr with
+  | some (s, q) =>
     let ks := List.range nodes.length
     pure (Json.mkObj [("valid", Json.bool true),
       ("sc", Json.arr (ks.map fun k => match s.sc k with | some c => ratJson c | none => Json.null).toArray),
       ("depth", Json.arr (ks.map fun k => Json.num (s.depth k)).toArray),
-      ("visited", Json.arr (s.visited.reverse.map fun (k : Nat) => Json.num (k : Nat)).toArray)])
-  | none => pure (Json.mkObj [("valid", Json.bool false), ("firstBad", Json.num (firstBad g min eps md seed tr))])
+      ("visited", Json.arr (s.visited.reverse.map fun (k : Nat) => Json.num (k : Nat)).toArray),
+      ("equivs", Json.arr (q.map fun (cn, k, c) => Json.arr #[Json.str cn, Json.num (k : Nat), ratJson c]).toArray)])
+  | none =>
+    -- where it stops: the relaxations alone (the projection), or only with the scope filter
+    let why := match runC g min eps md seed tr.proj with
+      | some _ => "scope"
+      | none => "relaxation"
+    pure (Json.mkObj [("valid", Json.bool false), ("firstBad", Json.num (firstBad g min eps md seed tr.proj)), ("why", why)])
 
 open Edxml.Miner in
 /-- seed selections of a mining run: `picks` = [[candidates [id, taint, confidence]], choice | null] -/
